@@ -50,13 +50,46 @@ enum KindC {
     MetricTyped,
     MetricText,
     MetricUpper,
+    // the same two kinds, carried differently
+    SpanOwned,
+    SpanShared,
+    SpanDisplay,
+    SpanCaptureDisplay,
+    SpanString,
+    SpanStringSerde,
+    SpanPadded,
+    SpanAmbient,
+    MetricOwned,
+    MetricShared,
+    MetricDisplay,
+    MetricCaptureDisplay,
+    MetricString,
+    MetricStringSerde,
+    MetricPadded,
+    MetricAmbient,
     UnknownText,
     WrongTypeInt,
     WrongTypeBool,
     Null,
 }
 
-const KINDS: [KindC; 11] = [
+const KINDS: [KindC; 27] = [
+    KindC::SpanOwned,
+    KindC::SpanShared,
+    KindC::SpanDisplay,
+    KindC::SpanCaptureDisplay,
+    KindC::SpanString,
+    KindC::SpanStringSerde,
+    KindC::SpanPadded,
+    KindC::SpanAmbient,
+    KindC::MetricOwned,
+    KindC::MetricShared,
+    KindC::MetricDisplay,
+    KindC::MetricCaptureDisplay,
+    KindC::MetricString,
+    KindC::MetricStringSerde,
+    KindC::MetricPadded,
+    KindC::MetricAmbient,
     KindC::Absent,
     KindC::SpanTyped,
     KindC::SpanText,
@@ -71,11 +104,15 @@ const KINDS: [KindC; 11] = [
 ];
 
 impl KindC {
+    fn is_ambient(self) -> bool {
+        matches!(self, KindC::SpanAmbient | KindC::MetricAmbient)
+    }
+
     fn is_span(self) -> bool {
-        matches!(self, KindC::SpanTyped | KindC::SpanText | KindC::SpanUpper)
+        matches!(self, KindC::SpanTyped | KindC::SpanText | KindC::SpanUpper | KindC::SpanOwned | KindC::SpanShared | KindC::SpanDisplay | KindC::SpanCaptureDisplay | KindC::SpanString | KindC::SpanStringSerde | KindC::SpanPadded | KindC::SpanAmbient)
     }
     fn is_metric(self) -> bool {
-        matches!(self, KindC::MetricTyped | KindC::MetricText | KindC::MetricUpper)
+        matches!(self, KindC::MetricTyped | KindC::MetricText | KindC::MetricUpper | KindC::MetricOwned | KindC::MetricShared | KindC::MetricDisplay | KindC::MetricCaptureDisplay | KindC::MetricString | KindC::MetricStringSerde | KindC::MetricPadded | KindC::MetricAmbient)
     }
     fn name(self) -> &'static str {
         match self {
@@ -86,6 +123,22 @@ impl KindC {
             KindC::MetricTyped => "metric",
             KindC::MetricText => "metric-text",
             KindC::MetricUpper => "metric-upper-text",
+            KindC::SpanOwned => "span-owned",
+            KindC::SpanShared => "span-shared",
+            KindC::SpanDisplay => "span-from-display",
+            KindC::SpanCaptureDisplay => "span-capture-display",
+            KindC::SpanString => "span-string",
+            KindC::SpanStringSerde => "span-string-serde",
+            KindC::SpanPadded => "span-padded-text",
+            KindC::SpanAmbient => "span-ambient-ctxt",
+            KindC::MetricOwned => "metric-owned",
+            KindC::MetricShared => "metric-shared",
+            KindC::MetricDisplay => "metric-from-display",
+            KindC::MetricCaptureDisplay => "metric-capture-display",
+            KindC::MetricString => "metric-string",
+            KindC::MetricStringSerde => "metric-string-serde",
+            KindC::MetricPadded => "metric-padded-text",
+            KindC::MetricAmbient => "metric-ambient-ctxt",
             KindC::UnknownText => "unknown-text",
             KindC::WrongTypeInt => "wrong-type-int",
             KindC::WrongTypeBool => "wrong-type-bool",
@@ -219,6 +272,21 @@ struct Store {
     with_text: Vec<NumOrText>,
     kind_span: emit::Kind,
     kind_metric: emit::Kind,
+    /// the typed kinds after `to_owned()` / `to_shared()` (an event replayed from a buffer)
+    owned: [emit::value::OwnedValue; 2],
+    shared: [emit::value::OwnedValue; 2],
+    /// a foreign type that prints the kind
+    shown: [Shown; 2],
+    strings: [String; 2],
+    ctxt: emit::platform::thread_local_ctxt::ThreadLocalCtxt,
+}
+
+struct Shown(&'static str);
+
+impl std::fmt::Display for Shown {
+    fn fmt(&self, f: &mut std::fmt::Formatter<'_>) -> std::fmt::Result {
+        f.write_str(self.0)
+    }
 }
 
 #[derive(Clone, Debug)]
@@ -281,6 +349,24 @@ fn emit_one(otlp: &emit_otlp::Otlp, ev: &Ev, st: &Store) {
         KindC::MetricTyped => props.push(("evt_kind", Value::from_any(&st.kind_metric))),
         KindC::MetricText => props.push(("evt_kind", Value::from("metric"))),
         KindC::MetricUpper => props.push(("evt_kind", Value::from("Metric"))),
+        KindC::SpanOwned => props.push(("evt_kind", st.owned[0].by_ref())),
+        KindC::SpanShared => props.push(("evt_kind", st.shared[0].by_ref())),
+        KindC::SpanDisplay => props.push(("evt_kind", Value::from_display(&st.shown[0]))),
+        KindC::SpanCaptureDisplay => props.push(("evt_kind", Value::capture_display(&st.shown[0]))),
+        KindC::SpanString => props.push(("evt_kind", Value::from_any(&st.strings[0]))),
+        KindC::SpanStringSerde => props.push(("evt_kind", if v / 2 % 2 == 0 { Value::from_serde(&st.strings[0]) } else { Value::from_sval(&st.strings[0]) })),
+        KindC::SpanPadded => props.push(("evt_kind", Value::from(*[&" span ", &"\tSPAN\n", &"Span  "][(v / 2 % 3) as usize]))),
+        // carried by the ambient context instead (see below)
+        KindC::SpanAmbient => {}
+        KindC::MetricOwned => props.push(("evt_kind", st.owned[1].by_ref())),
+        KindC::MetricShared => props.push(("evt_kind", st.shared[1].by_ref())),
+        KindC::MetricDisplay => props.push(("evt_kind", Value::from_display(&st.shown[1]))),
+        KindC::MetricCaptureDisplay => props.push(("evt_kind", Value::capture_display(&st.shown[1]))),
+        KindC::MetricString => props.push(("evt_kind", Value::from_any(&st.strings[1]))),
+        KindC::MetricStringSerde => props.push(("evt_kind", if v / 2 % 2 == 0 { Value::from_serde(&st.strings[1]) } else { Value::from_sval(&st.strings[1]) })),
+        KindC::MetricPadded => props.push(("evt_kind", Value::from(*[&" metric ", &"\tMETRIC\n", &"Metric  "][(v / 2 % 3) as usize]))),
+        // carried by the ambient context instead (see below)
+        KindC::MetricAmbient => {}
         KindC::UnknownText => props.push(("evt_kind", Value::from(*[&"banana", &"spanner", &"metrics", &"log", &""][(v / 2 % 5) as usize]))),
         KindC::WrongTypeInt => props.push(("evt_kind", Value::from(42))),
         KindC::WrongTypeBool => props.push(("evt_kind", Value::from(true))),
@@ -339,11 +425,22 @@ fn emit_one(otlp: &emit_otlp::Otlp, ev: &Ev, st: &Store) {
     let tpl = emit::Template::literal_ref(&name);
     let a = ts(ev.vid % 100_000, 5);
     let b = ts(ev.vid % 100_000 + 3, 7);
-    match ev.extent {
-        ExtentC::None => otlp.emit(emit::Event::new(mdl, tpl, emit::Empty, &props[..])),
-        ExtentC::Point => otlp.emit(emit::Event::new(mdl, tpl, emit::Extent::point(b), &props[..])),
-        ExtentC::Range => otlp.emit(emit::Event::new(mdl, tpl, emit::Extent::range(a..b), &props[..])),
-        ExtentC::EmptyRange => otlp.emit(emit::Event::new(mdl, tpl, emit::Extent::range(b..b), &props[..])),
+    let extent: Option<emit::Extent> = match ev.extent {
+        ExtentC::None => None,
+        ExtentC::Point => Some(emit::Extent::point(b)),
+        ExtentC::Range => Some(emit::Extent::range(a..b)),
+        ExtentC::EmptyRange => Some(emit::Extent::range(b..b)),
+    };
+    if ev.kind.is_ambient() {
+        // the kind travels through a context frame (buffered there as an owned value) and reaches the
+        // emitter as an ambient property behind the event's own
+        use emit::{Ctxt as _, Props as _};
+        let ctxt = &st.ctxt;
+        let kind = if ev.kind.is_span() { &st.kind_span } else { &st.kind_metric };
+        let frame = emit::Frame::push(ctxt, ("evt_kind", Value::from_any(kind)));
+        frame.call(|| ctxt.with_current(|ambient| otlp.emit(emit::Event::new(mdl, tpl, extent, (&props[..]).and_props(ambient)))));
+    } else {
+        otlp.emit(emit::Event::new(mdl, tpl, extent, &props[..]));
     }
 }
 
@@ -354,8 +451,8 @@ fn gen_event(g: &mut Rng, vid: u64, k: u64) -> Ev {
         (KINDS[(k as usize) % KINDS.len()], EXTENTS[(k as usize / KINDS.len()) % EXTENTS.len()], *g.pick(&VALS))
     } else {
         let kind = match g.below(10) {
-            0..=3 => *g.pick(&[KindC::MetricTyped, KindC::MetricText, KindC::MetricUpper]),
-            4..=6 => *g.pick(&[KindC::SpanTyped, KindC::SpanText, KindC::SpanUpper]),
+            0..=3 => *g.pick(&KINDS[8..16]),
+            4..=6 => *g.pick(&KINDS[0..8]),
             _ => *g.pick(&KINDS),
         };
         (kind, *g.pick(&EXTENTS), *g.pick(&VALS))
@@ -384,8 +481,8 @@ fn generate(seed: u64, case: u64, n_events: u64) -> Scenario {
     let transport = Transport::ALL[(case / 8 % 3) as usize];
     let gzip = case / 24 % 2 == 0;
     // rotate the systematic walk so that different cases start at different classes
-    let rot = g.below(44);
-    let events = (0..n_events).map(|k| gen_event(&mut g, case * 1_000_000 + k, (k + rot) % n_events.max(44))).collect();
+    let rot = g.below(108);
+    let events = (0..n_events).map(|k| gen_event(&mut g, case * 1_000_000 + k, (k + rot) % n_events.max(108))).collect();
     Scenario { case, subset, transport, gzip, events }
 }
 
@@ -414,6 +511,11 @@ fn run(r: &mut Report, sc: &Scenario, seed: u64) {
         with_text: vec![NumOrText::I(1), NumOrText::T("two"), NumOrText::I(3)],
         kind_span: emit::Kind::Span,
         kind_metric: emit::Kind::Metric,
+        owned: [emit::Value::from_any(&emit::Kind::Span).to_owned(), emit::Value::from_any(&emit::Kind::Metric).to_owned()],
+        shared: [emit::Value::from_any(&emit::Kind::Span).to_shared(), emit::Value::from_any(&emit::Kind::Metric).to_shared()],
+        shown: [Shown("span"), Shown("metric")],
+        strings: ["span".to_string(), "metric".to_string()],
+        ctxt: emit::platform::thread_local_ctxt::ThreadLocalCtxt::new(),
     };
     for ev in &sc.events {
         if let Err(msg) = catch(|| emit_one(&otlp, ev, &st)) {
